@@ -12,7 +12,7 @@ from vlib.harness import PropertyViolation, run_property
 PROPERTY_ID = "C19"
 LEVEL = "fault_enumeration"
 RULE = (
-    "Hypothesis generates (shape, attached? (to a project holding 0-4 modules of mixed types that may have been saved before and between the edits), initial cells, history of 1..4 bulk edits through set_via_fn / set_via_gen with generated notes (fresh ones, or the pattern's own notes moved to other cells: rotation / swaps), "
+    "Hypothesis generates (shape, attached? (to a project holding 0-4 modules of mixed types that may have been saved before and between the edits), initial cells (none: the pattern is never read before the first edit - expected contents come from a model, not from the pattern), history of 1..4 bulk edits through set_via_fn / set_via_gen with generated notes (fresh ones, or the pattern's own notes moved to other cells: rotation / swaps), "
     "generated yield subsets and orders, optional scribbling on the scratch array); for the last edit of every history the failure position is "
     "enumerated completely (callable raises - an exception type drawn from a list that includes StopIteration and a BaseException subclass - at call index f for every f in 0..cells; generator raises after yield j for every j in 0..yields) "
     "when the pattern has <= 256 cells (otherwise ends, middle and a stride). distinct = (history, failure position); histories may also fail half-way at generated points before continuing on the same object, and every enumerated failure of the last edit is followed by a further successful edit; non-trivial = failure at "
